@@ -194,8 +194,12 @@ def other_stm(rng):
         return "#show."
     if r < 0.8:
         return f"#const n = {rng.choice(['3', 'a', '2+1'])}."
-    if r < 0.9:
+    if r < 0.86:
         return f"#external {atom(rng, simple=True)} : {cond(rng, 1)}."
+    if r < 0.92:
+        return f"#heuristic {atom(rng, simple=True)} : {cond(rng, rng.choice([1, 2]))}. [{rng.choice(['1', 'X', 'Y'])}@{rng.choice(['0', '1'])},{rng.choice(['true', 'false', 'level', 'sign'])}]"
+    if r < 0.96:
+        return f"#edge ({rng.choice(VARS)},{rng.choice(VARS)}) : {cond(rng, rng.choice([1, 2]))}."
     return f"#project {name}/{ar}."
 
 
